@@ -84,6 +84,7 @@ var HostilePool = []string{
 	`"a"`, `"a"."b"`, `"t"."a" IS NULL OR "t"."b"`, `a" OR "b`, `a" = 'x' OR "b`, `") OR ("`, `"a"::text`, `"a" -- `, `a"."b`, `'a' OR 'b'`, `1 OR 1=1`, `x') OR ('1'='1`,
 	"İ", "ß", "ǅ", "ﬁ", "Å", "ı", "ſ", "aŉd", "e\u0301\u0301", "\u202eabc", "\u200d", "\U0001F468\u200d\U0001F469", "\U00010000", "\uFFFE", "\uE000",
 	"\v", "\f", "\u0085", "\u00a0", "\u2028", "\u3000", "a  b", "x \t y",
+	`\u2024`, `D:\data\u2024\report`, `\x41`, `\t`, `\0`, `\u00e9`, "%41", "&amp;", "&#x41;", `\N{DASH}`, "${HOME}", "{{x}}", "%(a)s",
 	"&&", "||", "a||b", "x && y", "!", "!=", "==", "<>", "->", "=>", "::", "..", "@", "#", "|", "&", "`", "${x}", "%s", "\\n", "\\\\*", "a\\\\b",
 	"00501", "09999", "10", "20", "1e3", "2.50", "-7", "+7", "007", "1_000", " 5", "5 ", "0x10",
 	"1", "0", "-1", "5.0", "1e5", ".5", "٣", "-٣", "-३", "-３", "010", "0x1F", "min", `"min":`, `"max":`, `"left":`, "{", "}}", "%!s(int=1)", "%!", "%d",
@@ -145,7 +146,7 @@ func GenQuotedVal(hostile bool) *rapid.Generator[*Val] {
 		if hostile {
 			return Quoted(GenHostileString(true).Draw(t, "qs"))
 		}
-		return Quoted(rapid.SampledFrom([]string{"q r", "The Right Way", "a", "5", "x AND y", "a:b", "(z)", " lead", "NOT", "1.5", "foo bar", "web-frontend-01", "web-frontend-02", "w*", "/r/"}).Draw(t, "q"))
+		return Quoted(rapid.SampledFrom([]string{"q r", "The Right Way", "a", "5", "x AND y", "a:b", "(z)", " lead", "NOT", "1.5", "foo bar", `C:\tmp\`, `a\`, `x\ y\`, "50%", "%d", "web-frontend-01", "web-frontend-02", "w*", "/r/"}).Draw(t, "q"))
 	})
 }
 
